@@ -391,7 +391,8 @@ func main() {
 		alpha [][]byte
 		n     int
 	}
-	for _, hs := range []holeSet{{skeletons, fillAlpha, fillLen}, {strSkeletons, strAlpha, fillLen - 1}} {
+	crAlpha := enum.Bytes("/", "*", "\n", "\r", "a", " ", "\"")
+	for _, hs := range []holeSet{{skeletons, fillAlpha, fillLen}, {strSkeletons, strAlpha, fillLen - 1}, {skeletons, crAlpha, fillLen - 1}} {
 		for _, sk := range hs.sk {
 			pre, post := []byte(sk[0]), []byte(sk[1])
 			enum.Strings(hs.alpha, hs.n, nw, func(w int, fill []byte) {
@@ -523,7 +524,7 @@ func main() {
 	})
 	r.Set("evaluations", files+toks+holes+longs)
 	r.Set("distinct_nontrivial", validFiles+tokValid+holesValid+longsValid)
-	r.Set("rule", "grammar: (A) every context (BOM? x leading comment x separator x trailer) x every single import declaration; (A2) every single byte and every 2-3 character string over the boundaries of the identifier classes {A,Z,a,z,0,9,_,M,é,@,[,`,{,/,:} as package name and as import name; (B) reduced contexts x every pair of declarations from a reduced set; (C) ten skeleton files with one hole filled by every token string of <= skeleton_hole_max_tokens over {/,*,LF,SP,a,;}, and three string-literal holes filled over {a,\\,\",x,6,1,`,LF,/,*}; (D) the same thirteen holes filled with one long element (line comment, two block-comment shapes, blanks, newlines, identifier, string content, a run of short comments) of every length 4080..4100, 8186..8196, 16384 and 65537 bytes; plus every token string of length <= max_tokens over the 18-token lexical alphabet. non-trivial = accepted by go/parser as a complete valid file (so the import-list and prefix rules apply), counted")
+	r.Set("rule", "grammar: (A) every context (BOM? x leading comment x separator x trailer) x every single import declaration; (A2) every single byte and every 2-3 character string over the boundaries of the identifier classes {A,Z,a,z,0,9,_,M,é,@,[,`,{,/,:} as package name and as import name; (B) reduced contexts x every pair of declarations from a reduced set; (C) ten skeleton files with one hole filled by every token string of <= skeleton_hole_max_tokens over {/,*,LF,SP,a,;} and (one token shorter) over {/,*,LF,CR,a,SP,\"} (carriage returns that are not line ends), and three string-literal holes filled over {a,\\,\",x,6,1,`,LF,/,*}; (D) the same thirteen holes filled with one long element (line comment, two block-comment shapes, blanks, newlines, identifier, string content, a run of short comments) of every length 4080..4100, 8186..8196, 16384 and 65537 bytes; plus every token string of length <= max_tokens over the 18-token lexical alphabet. non-trivial = accepted by go/parser as a complete valid file (so the import-list and prefix rules apply), counted")
 	r.Set("generated_files", files)
 	r.Set("generated_files_valid", validFiles)
 	r.Set("generated_files_rejected_by_go_parser_not_judged", rejected)
